@@ -42,6 +42,64 @@ def h_maxvol(ctx, n, r, perm, k):
     ctx.canary('canary_B', ctx.all_eq(B @ A0[I, :], A0 * 2))
 
 
+def _exact_plu(rows):
+    """Partial-pivoting LU of an integer matrix in exact rationals (first maximal
+    pivot, like LAPACK): perm (row order), L, U as lists of Fractions."""
+    from fractions import Fraction
+    M = [[Fraction(v) for v in row] for row in rows]
+    n, r = len(M), len(M[0])
+    order = list(range(n))
+    L = [[Fraction(0)] * r for _ in range(n)]
+    for c in range(r):
+        piv = max(range(c, n), key=lambda i: (abs(M[i][c]), -i))
+        M[c], M[piv] = M[piv], M[c]
+        L[c], L[piv] = L[piv], L[c]
+        order[c], order[piv] = order[piv], order[c]
+        L[c][c] = Fraction(1)
+        for i in range(c + 1, n):
+            f = M[i][c] / M[c][c]
+            L[i][c] = f
+            for j in range(c, r):
+                M[i][j] -= f * M[c][j]
+    U = [M[i][:r] for i in range(r)]
+    return order, L, U
+
+
+def h_maxvol_chain(ctx, rows, k):
+    """A fixed integer matrix (times symbolic positive column scales) on which the
+    row exchanges form a long chain: for e close to 1 more exchanges are needed
+    than there are rows outside the submatrix.  Symbolic: e >= 1 (every number of
+    exchanges up to the chain length is explored), the column scales."""
+    n, r = len(rows), len(rows[0])
+    order, Lq, Uq = _exact_plu(rows)
+    c = vec(ctx, 'c', r)
+    for v in c:
+        ctx.assume(ctx.gt(v, 0))
+    K = lambda q: ctx.const(q.numerator) / q.denominator if q.denominator != 1 else ctx.const(q.numerator)
+    dt = c.dtype
+    L = np.array([[K(v) for v in row] for row in Lq], dtype=dt)
+    U = np.array([[K(Uq[i][j]) * c[j] for j in range(r)] for i in range(r)], dtype=dt)
+    A = np.array([[ctx.const(rows[i][j]) * c[j] for j in range(r)] for i in range(n)], dtype=dt)
+    # row order[j] of A is row j of L U
+    Pm = np.array([[ctx.const(1 if order[j] == i else 0) for j in range(n)] for i in range(n)], dtype=dt)
+    if is_sym(ctx):
+        ctx.claim('harness_plu_consistent', ctx.all_eq(Pm @ L @ U, A))
+    expect(ctx, 'lu', A, (Pm, L, U))
+    e = ctx.real('e')
+    ctx.assume(ctx.ge(e, 1), 'e >= 1')
+    A0 = A.copy()
+    with count_calls(np, 'outer') as cnt:
+        I, B = teneva.maxvol(A, e, k)
+    I = [int(i) for i in I]
+    ctx.claim('rows_valid', len(I) == r and len(set(I)) == r and all(0 <= i < n for i in I))
+    ctx.claim('A_eq_B_AI', ctx.all_eq(B @ A0[I, :], A0))
+    ctx.claim('B_I_identity', ctx.all_eq(B[I, :], eye(ctx, r)))
+    if cnt['n'] < k:
+        ctx.claim('dominant', ctx.all_([ctx.le(b, e) for b in B.reshape(-1)] +
+                                       [ctx.ge(b, -e) for b in B.reshape(-1)]))
+    ctx.claim('finite', finite(ctx, [B]))
+
+
 def h_maxvol_rect(ctx, n, r, perm, dr_min, dr_max, k0):
     A = _plu(ctx, n, r, perm)
     e = ctx.real('e')
@@ -89,6 +147,10 @@ def instances(tier):
                                   (4, 2, 1, True), (4, 3, 1, False), (5, 2, 1, False), (4, 1, 3, False)]):
         for p in perms(n, r, full):
             out.append({'func': 'h_maxvol', 'params': {'n': n, 'r': r, 'perm': list(p), 'k': k}})
+    # chains of exchanges longer than the number of outside rows (found by search)
+    for rows in ([[3, 2, -5], [-3, 6, -2], [-4, -3, -1], [3, -6, -5], [1, -6, 3], [3, 3, 6]],      # 4 exchanges, 3 outside rows
+                 [[6, -1], [5, 1], [-5, 5], [-3, 5], [-3, -4]]):                                      # 3 exchanges, 3 outside rows
+        out.append({'func': 'h_maxvol_chain', 'params': {'rows': rows, 'k': 8}})
     rect = [(3, 1, 0, 1, 1), (3, 1, 1, 2, 1), (3, 2, 0, 1, 1), (4, 2, 0, 1, 1), (3, 1, 0, 0, 1), (3, 2, 0, 0, 1)] if tier == 'quick' else \
         [(3, 1, 0, 1, 1), (3, 1, 1, 2, 1), (3, 1, 0, 2, 2), (3, 2, 0, 1, 1), (3, 2, 1, 1, 1), (4, 2, 0, 2, 1), (3, 1, 0, 0, 1), (4, 2, 0, 0, 1),
          (4, 2, 1, 2, 1), (4, 1, 0, 3, 1), (3, 1, 0, None, 1)]
